@@ -32,7 +32,9 @@ def unit(nz):
 
 
 def f(lo, hi):
-    return st.floats(lo, hi, allow_nan=False, allow_infinity=False, width=64)
+    # no subnormals: a coordinate difference of 5e-324 underflows to zero in any product (cross products, determinants),
+    # so geometry at that resolution is outside what floating-point code can be asked to decide
+    return st.floats(lo, hi, allow_nan=False, allow_infinity=False, allow_subnormal=False, width=64)
 
 
 @st.composite
